@@ -146,6 +146,12 @@ def split(prog: Program, rng: random.Random, *, forms=None, cycles=False, pool=N
                     ok = False
                 if dpkg is not None and form in ("reexport_init", "reexport_star", "import_pkg_member") and src == dpkg + ".__init__":
                     ok = False
+                # a module inside the package must not import a name back through the package's own __init__ (a re-export
+                # cycle: not a valid program, Python raises ImportError on it at run time)
+                spkg = package_of(src)
+                if dpkg is not None and form in ("reexport_init", "reexport_star", "import_pkg_member", "reexport_star_chain") and spkg is not None \
+                        and (spkg == dpkg or spkg.startswith(dpkg + ".") or src == dpkg + ".__init__"):
+                    ok = False
                 if form == "chain" and len([m for m in pool if m not in (src, dst)]) == 0:
                     ok = False
                 if ok:
